@@ -341,12 +341,137 @@ def create_dg_unit(res):
     return res
 
 
+ROLE_FILES = ["osaca/parser/operand.py", "osaca/parser/register.py", "osaca/parser/memory.py", "osaca/parser/immediate.py", "osaca/parser/flag.py",
+              "osaca/parser/identifier.py", "osaca/parser/instruction_form.py", "osaca/semantics/hw_model.py", ISA]
+
+
+def roles_unit(isa):
+    """Pb: ISASemantics.assign_src_dst (with _apply_found_ISA_data, default roles, suffix fall-backs, register form of a memory
+    instruction, AArch64 write-back post-processing, load/store flags) for 1-3 operands, symbolic per-operand roles of the ISA
+    entry and of two hidden operands.  Spec from the statement: read-modify-write operands go to src_dst, hidden (flag) operands
+    follow their roles, a dependency-breaking idiom with equal operands writes without reading, forms without ISA entry get
+    'last (x86) / first (AArch64) operand is the destination', a single operand is a source."""
+    def unit(res):
+        ex = Engine([REPO + "/" + f for f in ROLE_FILES])
+        ex.no_init |= {"MachineModel", "ParserX86ATT", "ParserAArch64"}
+        import itertools
+        for nops, found, mempos, equal, idiom in itertools.product((1, 2, 3), ("full", "suffix", "regform", "none"), (None, "last", "first"), (False, True), (False, True)):
+            if found == "regform" and mempos is None:
+                continue
+            if equal and (mempos is not None or nops == 1):
+                continue
+            if idiom and found == "none":
+                continue
+            if nops == 3 and (mempos == "first" or found == "suffix"):
+                continue  # (covered with 1 and 2 operands; keeps the number of paths manageable)
+            mi = None if mempos is None else (nops - 1 if mempos == "last" else 0)
+            srcb = [z3.Bool(f"src{i}") for i in range(nops)]
+            dstb = [z3.Bool(f"dst{i}") for i in range(nops)]
+            hs, hd = [z3.Bool("hsrc0"), z3.BoolVal(True)], [z3.Bool("hdst0"), z3.BoolVal(True)]
+            if nops == 3:
+                srcb[1], dstb[1] = z3.BoolVal(True), z3.BoolVal(False)
+            pre_i, post_i = z3.Bools("mem_pre mem_post")
+
+            def run():
+                new = lambda c, **kw: ex.instantiate(c, kw=kw)
+                reg = (lambda n: new("RegisterOperand", name=n)) if isa == "x86" else (lambda n: new("RegisterOperand", prefix="x", name=n))
+                names = ["rax", "rbx", "rcx"] if isa == "x86" else ["1", "2", "3"]
+                ops = []
+                for i in range(nops):
+                    if i == mi:
+                        ops.append(new("MemoryOperand", base=reg("rsi" if isa == "x86" else "9"), offset=new("ImmediateOperand", value=8),
+                                       pre_indexed=SBool(pre_i) if isa == "aarch64" else False, post_indexed=SBool(post_i) if isa == "aarch64" else False))
+                    else:
+                        ops.append(reg(names[0] if equal else names[i]))
+                hidden = [new("FlagOperand", name="ZF", source=SBool(hs[0]), destination=SBool(hd[0])), new("FlagOperand", name="CF", source=SBool(hs[1]), destination=SBool(hd[1]))]
+                e_ops = [new("RegisterOperand", name="gpr", source=SBool(srcb[i]), destination=SBool(dstb[i])) for i in range(nops)]
+                entry = new("InstructionForm", mnemonic="OP", operands=e_ops, hidden_operands=hidden, breaks_dependency_on_equal_operands=idiom)
+                full = "opq" if isa == "x86" else "op.s"
+
+                def get_instruction(ex_, so, a, kw):
+                    name, operands = a
+                    wild = any(isinstance(o, dict) for o in operands)
+                    short = name == "op"
+                    if found == "full" and not wild and not short:
+                        return entry
+                    if found == "suffix" and not wild and short:
+                        return entry
+                    if found == "regform" and wild and not short:
+                        return entry
+                    return None
+
+                ex.abstract["get_instruction"] = get_instruction
+                iform = new("InstructionForm", mnemonic=full, operands=ops, line="op", line_number=1)
+                sem = SObj("ISASemantics", _isa=isa, _isa_model=SObj("MachineModel", _data={"isa": isa}))
+                ex.call_method("ISASemantics", "assign_src_dst", sem, [iform])
+                ex.extra.update(ops=ops, hidden=hidden, iform=iform)
+                return iform
+
+            paths = ex.explore(run, [z3.Not(z3.And(pre_i, post_i))])
+
+            def post(v, p):
+                ops, hidden = p.extra["ops"], p.extra["hidden"]
+                so = v.fields["_semantic_operands"]
+                if not isinstance(so, dict) or set(so) != {"source", "destination", "src_dst"}:
+                    return False
+                inl = lambda lst, o: any(x is o for x in lst)
+                g = []
+                has_entry = found in ("full", "suffix") or (found == "regform")
+                if has_entry and idiom and (equal or nops == 1):  # (a single operand is trivially "all operands equal")
+                    for o in ops + hidden:
+                        g.append(z3.BoolVal(inl(so["destination"], o) and not inl(so["source"], o) and not inl(so["src_dst"], o)))
+                elif has_entry:
+                    for o, sb, db in list(zip(ops, srcb, dstb)) + list(zip(hidden, hs, hd)):
+                        is_hidden = any(o is h for h in hidden)
+                        in_sd, in_s, in_d = inl(so["src_dst"], o), inl(so["source"], o), inl(so["destination"], o)
+                        if is_hidden:
+                            # hidden operands without any role are filed as destination by the code ('else' branch); the
+                            # statement only speaks about operands that have a role
+                            g.append(z3.Implies(z3.And(sb, db), z3.BoolVal(in_sd and not in_s and not in_d)))
+                            g.append(z3.Implies(z3.And(sb, z3.Not(db)), z3.BoolVal(in_s and not in_sd and not in_d)))
+                            g.append(z3.Implies(z3.And(z3.Not(sb), db), z3.BoolVal(in_d and not in_s and not in_sd)))
+                        else:
+                            g.append(z3.BoolVal(in_sd) == z3.And(sb, db))
+                            g.append(z3.BoolVal(in_s) == z3.And(sb, z3.Not(db)))
+                            g.append(z3.BoolVal(in_d) == z3.And(z3.Not(sb), db))
+                else:
+                    dest = [] if nops == 1 else ([ops[-1]] if isa == "x86" else [ops[0]])
+                    for o in ops:
+                        g.append(z3.BoolVal(inl(so["destination"], o) == any(o is d for d in dest)))
+                        g.append(z3.BoolVal(inl(so["source"], o) == (not any(o is d for d in dest))))
+                    g.append(z3.BoolVal(not any(any(x is o for o in ops) for x in so["src_dst"])))
+                # AArch64 write-back: the base register of a pre/post-indexed memory operand in source/destination is read and written
+                if isa == "aarch64" and mi is not None:
+                    m = ops[mi]
+                    base = m.fields["_base"]
+                    in_plain = inl(so["source"], m) or inl(so["destination"], m)
+                    g.append(z3.Implies(z3.And(z3.Or(pre_i, post_i), z3.BoolVal(in_plain)), z3.BoolVal(inl(so["src_dst"], base))))
+                    g.append(z3.Implies(z3.Not(z3.Or(pre_i, post_i)), z3.BoolVal(not inl(so["src_dst"], base))))
+                # load/store flags
+                fl = v.fields["_flags"]
+                if mi is not None:
+                    m = ops[mi]
+                    g.append(z3.BoolVal(("performs_load" in fl) == (inl(so["source"], m) or inl(so["src_dst"], m))))
+                    g.append(z3.BoolVal(("performs_store" in fl) == (inl(so["destination"], m) or inl(so["src_dst"], m))))
+                else:
+                    g.append(z3.BoolVal("performs_load" not in fl and "performs_store" not in fl))
+                return z3.And(g)
+
+            res.add_paths(paths, post, kind=f"{isa}/n{nops}/{found}/mem={mempos}/equal={int(equal)}/idiom={int(idiom)}", label="Pb")
+        return res
+
+    return unit
+
+
 def units(tier):
     return [
         Unit("C03/is_read", read_written_unit("is_read"), "P", [(KDG, "KernelDG.is_read")]),
         Unit("C03/is_written", read_written_unit("is_written"), "P", [(KDG, "KernelDG.is_written")]),
         Unit("C03/find_depending", find_depending_unit, "P", [(KDG, "KernelDG.find_depending")]),
         Unit("C03/create_DG", create_dg_unit, "P", [(KDG, "KernelDG.create_DG")]),
+        Unit("C03/assign_src_dst/roles/x86", roles_unit("x86"), "Pb", [(ISA, "ISASemantics.assign_src_dst"), (ISA, "ISASemantics._apply_found_ISA_data"),
+             (ISA, "ISASemantics._get_regular_source_operands"), (ISA, "ISASemantics._get_regular_destination_operands"), (ISA, "ISASemantics._has_load"), (ISA, "ISASemantics._has_store")], timeout=1500),
+        Unit("C03/assign_src_dst/roles/aarch64", roles_unit("aarch64"), "Pb", [(ISA, "ISASemantics.assign_src_dst"), (ISA, "ISASemantics._apply_found_ISA_data")], timeout=1500),
         bounded_unit("C03/pipeline-vs-RAW-oracle", "dg_oracle", [(KDG, "KernelDG.create_DG"), (KDG, "KernelDG.find_depending"),
                      (ISA, "ISASemantics.assign_src_dst")], extra_args=["C03"], timeout=1500),
     ]
